@@ -1,7 +1,7 @@
 // C08: state recovery replays exactly the missed packets, or falls back cleanly.
 //
 // Part A (adapter level, the core): every history of <= 3 (quick) / <= 4 (+ text-only 5, thorough)
-// broadcasts over 8 emit kinds x {text, binary}, every disconnect point k, every reconnection time in
+// broadcasts over 10 emit kinds x {text, binary}, every disconnect point k, every reconnection time in
 // {1, 59, 61, 119, 121, 181} s, packets 10 s or 35 s apart, each executed on the real session-aware
 // adapter (production window handling and 60 s cleaner) in virtual time and judged against a reference
 // model with a three-valued expectation (must / may / must-not recover). Two sessions recover from the
@@ -36,6 +36,7 @@ type keyAgg struct {
 	K       int
 	SpaceMs int64
 	DeltaMs int64
+	Rev     bool
 	Msg     string
 	Replay  map[string]any
 }
@@ -45,7 +46,7 @@ func (k *keyAgg) caseID() caseID {
 	for i, x := range k.H {
 		h[i] = sym(x)
 	}
-	return caseID{H: h, K: k.K, Delta: time.Duration(k.DeltaMs) * time.Millisecond, Spacing: time.Duration(k.SpaceMs) * time.Millisecond}
+	return caseID{H: h, K: k.K, Delta: time.Duration(k.DeltaMs) * time.Millisecond, Spacing: time.Duration(k.SpaceMs) * time.Millisecond, Rev: k.Rev}
 }
 
 type workerOut struct {
@@ -76,7 +77,7 @@ func (o *workerOut) found(part string, c caseID, f finding) {
 	}
 	a.Count++
 	if a.Count == 1 || c.less(a.caseID()) {
-		a.H, a.K, a.DeltaMs, a.SpaceMs, a.Msg, a.Replay = c.H.ints(), c.K, c.Delta.Milliseconds(), c.Spacing.Milliseconds(), f.Msg, c.replay(part)
+		a.H, a.K, a.DeltaMs, a.SpaceMs, a.Rev, a.Msg, a.Replay = c.H.ints(), c.K, c.Delta.Milliseconds(), c.Spacing.Milliseconds(), c.Rev, f.Msg, c.replay(part)
 	}
 }
 
@@ -151,6 +152,10 @@ func adapterSpecs(tier string) []lenSpec {
 	return specs
 }
 
+// revs: the orders in which the persisted sessions list their rooms (the server builds that slice from a
+// set, so the order is arbitrary; a filter that walks the session's rooms once can depend on it).
+func revs(h history) []bool { return []bool{false, true} }
+
 func pow(a, b int) int {
 	r := 1
 	for i := 0; i < b; i++ {
@@ -185,32 +190,34 @@ func adapterWorker(tier string, shard, nshards int, deadline time.Time) *workerO
 						if k == 0 && spc != allSpacings[0] {
 							continue // no packet before the disconnect: the spacing changes nothing
 						}
-						c := caseID{H: h, K: k, Delta: d, Spacing: spc}
-						r := runAdapterCase(c)
-						o.Cases++
-						o.Execs++
-						o.Steps += r.Steps
-						o.Replayed += r.Replayed
-						o.ByLen[fmt.Sprint(sp.L)]++
-						if r.HarnessErr != "" {
-							o.harnessErr(r.HarnessErr)
-							continue
-						}
-						if r.Nontrivial {
-							o.Nontrivial++
-						}
-						for s := 0; s < 2; s++ {
-							res := "refused"
-							if r.OK[s] {
-								res = "recovered"
+						for _, rev := range revs(h) {
+							c := caseID{H: h, K: k, Delta: d, Spacing: spc, Rev: rev}
+							r := runAdapterCase(c)
+							o.Cases++
+							o.Execs++
+							o.Steps += r.Steps
+							o.Replayed += r.Replayed
+							o.ByLen[fmt.Sprint(sp.L)]++
+							if r.HarnessErr != "" {
+								o.harnessErr(r.HarnessErr)
+								continue
 							}
-							o.ByClass[r.Class[s].String()+"/"+res]++
-						}
-						for _, f := range r.Findings {
-							o.found("adapter", c, f)
-						}
-						if len(o.Samples) < 2 && sp.L == 3 && k == 1 && r.Nontrivial && shard == 0 {
-							o.Samples = append(o.Samples, map[string]any{"part": "adapter", "case": c.String(), "session_S": r.Class[0].String(), "recovered_S": r.OK[0], "session_T": r.Class[1].String(), "recovered_T": r.OK[1]})
+							if r.Nontrivial {
+								o.Nontrivial++
+							}
+							for s := 0; s < 2; s++ {
+								res := "refused"
+								if r.OK[s] {
+									res = "recovered"
+								}
+								o.ByClass[r.Class[s].String()+"/"+res]++
+							}
+							for _, f := range r.Findings {
+								o.found("adapter", c, f)
+							}
+							if len(o.Samples) < 2 && sp.L == 3 && k == 1 && r.Nontrivial && shard == 0 {
+								o.Samples = append(o.Samples, map[string]any{"part": "adapter", "case": c.String(), "session_S": r.Class[0].String(), "recovered_S": r.OK[0], "session_T": r.Class[1].String(), "recovered_T": r.OK[1]})
+							}
 						}
 					}
 				}
@@ -304,7 +311,7 @@ func main() {
 	}
 	deadline := time.Now().Add(budget)
 	r := vx.NewReport("C08", *tier, "model_checking")
-	r.Rule = "adapter level: every history of <= 3 (quick) / <= 4 plus text-only 5 (thorough) packets over 8 emit kinds {all, r1, r2, r1 except r2, all except S, direct to S, direct to T, direct to S with ack id} x {text, binary}, x every disconnect point k in 0..len, x reconnection 1/59/61/119/121/181 s after the disconnect (window 120 s, production cleaner every 60 s), x packets 10 s or 35 s apart before the disconnect (the slow profile puts clean-up passes inside the live phase and makes offsets much older than the disconnect); each (history, k, delta, spacing) is executed once on the real session-aware adapter in virtual time; two sessions (S in {S,r1}, T in {T,r2}) recover from the same log; judged against a reference model with a three-valued expectation (must / may / must-not recover). " +
+	r.Rule = "adapter level: every history of <= 3 (quick) / <= 4 plus text-only 5 (thorough) packets over 10 emit kinds {all, r1, r2, r1 except r2, all except S, direct to S, direct to T, direct to S with ack id, r1 except S (S's own To(r1)), r1+r2 except T} x both orders of the persisted session's room list x {text, binary}, x every disconnect point k in 0..len, x reconnection 1/59/61/119/121/181 s after the disconnect (window 120 s, production cleaner every 60 s), x packets 10 s or 35 s apart before the disconnect (the slow profile puts clean-up passes inside the live phase and makes offsets much older than the disconnect); each (history, k, delta, spacing) is executed once on the real session-aware adapter in virtual time; two sessions (S in {S,r1}, T in {T,r2}) recover from the same log; judged against a reference model with a three-valued expectation (must / may / must-not recover). " +
 		"server level: the same model through a recovery-enabled sio.Server and a protocol-level client that decodes the frames itself (rig R1): histories of <= 2 (quick; deltas 1/61/121 s) / <= 3 (thorough; all deltas, both spacings), plus scripted scenarios (10-packet mixed history, unknown pid, never-logged offset, DISCONNECT instead of a cut, recovery twice in a row, two sessions recovering the same binary packets, live events after every reconnection). " +
 		"Go client: sio.Manager over the in-process polling link (rig R3), one scenario per handler signature (2 live events, link down until both sides noticed, 2 events while away, link up, 1 more event). " +
 		"distinct_nontrivial = cases in which session S has an offset and the model replays at least one packet (adapter + server level) + client scenarios"
@@ -442,6 +449,7 @@ func doReplay(path string) {
 			K        int    `json:"k"`
 			DeltaMs  int64  `json:"delta_ms"`
 			SpaceMs  int64  `json:"spacing_ms"`
+			Rev      bool   `json:"rev"`
 			Scenario string `json:"scenario"`
 		} `json:"replay"`
 	}
@@ -453,7 +461,7 @@ func doReplay(path string) {
 	for i, x := range f.Replay.History {
 		h[i] = sym(x)
 	}
-	c := caseID{H: h, K: f.Replay.K, Delta: time.Duration(f.Replay.DeltaMs) * time.Millisecond, Spacing: time.Duration(f.Replay.SpaceMs) * time.Millisecond}
+	c := caseID{H: h, K: f.Replay.K, Delta: time.Duration(f.Replay.DeltaMs) * time.Millisecond, Spacing: time.Duration(f.Replay.SpaceMs) * time.Millisecond, Rev: f.Replay.Rev}
 	var fs []finding
 	herr := ""
 	switch f.Replay.Part {
